@@ -20,6 +20,16 @@ SCANS = {
         # only sites that reach a ShardReplicaState: the receiver chain mentions replica_state / ShardReplicaState owner
         'receiver': r'(replica_state|shard_state|\bstate)\s*\.\s*$',
     },
+    # The representation invariant of the byte-string type (sds_wf: an Inline value has len <= 23) is pre- and postcondition of
+    # every function of sds.rs (units sds_codec / sds_ops).  The variants of a pub enum are public: the invariant holds for every
+    # SDS value in the program only if no code outside sds.rs names a variant (builds one, or matches on one and writes through it).
+    # This is the frame that lets the other units' SDS stubs omit sds_wf.
+    'sds_encapsulation': {
+        'owner': 'src/redis/data/sds.rs',
+        'what': 'uses of the variants SDS::Inline / SDS::Heap outside sds.rs (sds_wf: representation invariant of the byte-string type)',
+        'patterns': [r'\bSDS\s*::\s*(Inline|Heap)\b'],
+        'any_receiver': True,
+    },
 }
 
 
@@ -57,7 +67,7 @@ def run_scan(repo, name):
                     # receiver chain immediately before the field name
                     pre = m[max(0, mm.start() - 80):mm.start()]
                     pre = re.sub(r'\s+', '', pre)
-                    if not re.search(r'(replica_state|shard_state|state)\.$', pre) and not re.search(r'&mut', m[mm.start():mm.start() + 5]):
+                    if not sc.get('any_receiver') and not re.search(r'(replica_state|shard_state|state)\.$', pre) and not re.search(r'&mut', m[mm.start():mm.start() + 5]):
                         # `self.replicated_keys` inside another type that has its own field of that name
                         continue
                     line = text.count('\n', 0, mm.start()) + 1
